@@ -62,6 +62,9 @@ struct GuestSize;
   };
 GS(char, 1)
 GS(short, 2)
+GS(unsigned short, 2)
+GS(char16_t, 2)
+GS(unsigned char, 1)
 GS(long long, 8)
 GS(double, 8)
 using IntArr4 = int[4];
@@ -728,6 +731,9 @@ int main(int argc, char** argv)
     c17_elem<long>(rng, thorough);
     c17_elem<long long>(rng, thorough);
     c17_elem<int*>(rng, thorough);
+    c17_shape<unsigned short, 5>(rng, thorough);
+    c17_shape<char16_t, 3>(rng, thorough);
+    c17_shape<unsigned char, 8>(rng, thorough);
     c17_2d(rng);
     c17_long(rng);
     c17_const(rng);
